@@ -48,9 +48,12 @@ type Event struct {
 	Thread string // thread that made the observation
 }
 
+// OK reports whether the observed operation returned a nil error.
+func (e Event) OK() bool { return e.Code == "" || e.Code == "OK" }
+
 func (e Event) String() string {
 	s := fmt.Sprintf("%s %s#%d", e.Actor, e.Op, e.Idx)
-	if e.Err != "" {
+	if !e.OK() {
 		s += " err=" + e.Code + "(" + e.Err + ")"
 	}
 	if e.Detail != "" {
